@@ -76,4 +76,10 @@ CHECKS = {
         "note": "Snapshots compare type, size, SHA-256 and mode of every path under the scratch root; mtimes are not compared.",
         "technique": "TLA+ spec (RunFs.tla) + TLC history enumeration + real binary with file-system snapshots + TLC trace validation",
     },
+    "C01": {
+        "text": "Sig (SolAst.tla) states what the full tree is, from pt.rs. TLC generates a tree for every (kind, slot, position) frame (thorough: every pair of frames), runs the explicit-stack search machine and checks it against the declarative pre-order filter; every tree is rendered, parsed, projected back (round trip) and searched by the real extract_target(s)_from_node from every node; corpus programs likewise; TV_Walk accepts a recorded search iff it returns exactly the subtree's nodes of the target kinds, once each, in source order.",
+        "design_ref": "section 7 C01, Appendix A",
+        "note": "Trusted: the projector (rustc-checked exhaustive destructuring of the parse tree), solang-parser; node identity by structural equality including all source locations.",
+        "technique": "TLA+ spec (SolAst/Walk/Gen) + TLC tree generation and machine check + real search replay + TLC trace validation",
+    },
 }
